@@ -9,6 +9,7 @@ import (
 	"go/token"
 	"os"
 	"path/filepath"
+	"strconv"
 	"strings"
 )
 
@@ -136,8 +137,179 @@ func buildOverlay(spec overlaySpec) (map[string][]byte, error) {
 		}
 		ov[file] = b
 	}
+	// co-scaling: the data-file block size may be restated elsewhere in the source (a second constant, an inline
+	// 32*1024): every constant expression in the repository's own non-test files that evaluates to the ORIGINAL
+	// value of datafile/log_record.go:blockSize is rewritten to the scaled value too, so that scaled jobs keep one
+	// consistent geometry. (Nothing of the kind exists in the pinned tree; sites are listed in coScaled.)
+	if lit, ok := spec.Scale["datafile/log_record.go:blockSize"]; ok {
+		orig, err := constValueOf(filepath.Join(repoDir, "datafile/log_record.go"), "blockSize")
+		if err == nil && orig > 1024 {
+			for _, dir := range []string{".", "datafile", "index", "fio", "utils", "datatype"} {
+				files, _ := filepath.Glob(filepath.Join(repoDir, dir, "*.go"))
+				for _, f := range files {
+					if strings.HasSuffix(f, "_test.go") || strings.HasPrefix(filepath.Base(f), "zz_verif_") {
+						continue
+					}
+					src := ov[f]
+					b, n, err := coScale(f, src, orig, lit, f == filepath.Join(repoDir, "datafile/log_record.go"))
+					if err == nil && n > 0 {
+						ov[f] = b
+						coScaled = append(coScaled, fmt.Sprintf("%s: %d expression(s) equal to %d", strings.TrimPrefix(f, repoDir+"/"), n, orig))
+					}
+				}
+			}
+		}
+	}
 	for rel, b := range spec.TestFile {
 		ov[filepath.Join(repoDir, rel)] = b
 	}
 	return ov, nil
+}
+
+// coScaled lists the extra sites rewritten by the last buildOverlay call (reported with every scaled job).
+var coScaled []string
+
+func evalConstExpr(e ast.Expr) (int64, bool) {
+	switch x := e.(type) {
+	case *ast.BasicLit:
+		if x.Kind != token.INT {
+			return 0, false
+		}
+		v, err := strconv.ParseInt(x.Value, 0, 64)
+		return v, err == nil
+	case *ast.ParenExpr:
+		return evalConstExpr(x.X)
+	case *ast.BinaryExpr:
+		a, ok1 := evalConstExpr(x.X)
+		b, ok2 := evalConstExpr(x.Y)
+		if !ok1 || !ok2 {
+			return 0, false
+		}
+		switch x.Op {
+		case token.MUL:
+			return a * b, true
+		case token.ADD:
+			return a + b, true
+		case token.SUB:
+			return a - b, true
+		case token.SHL:
+			if b < 0 || b > 62 {
+				return 0, false
+			}
+			return a << uint(b), true
+		}
+	}
+	return 0, false
+}
+
+func constValueOf(file, name string) (int64, error) {
+	fset := token.NewFileSet()
+	f, err := parser.ParseFile(fset, file, nil, 0)
+	if err != nil {
+		return 0, err
+	}
+	var val int64
+	found := false
+	ast.Inspect(f, func(n ast.Node) bool {
+		if vs, ok := n.(*ast.ValueSpec); ok {
+			for i, id := range vs.Names {
+				if id.Name == name && i < len(vs.Values) {
+					if v, ok := evalConstExpr(vs.Values[i]); ok {
+						val, found = v, true
+					}
+				}
+			}
+		}
+		return true
+	})
+	if !found {
+		return 0, fmt.Errorf("constant %s not evaluable", name)
+	}
+	return val, nil
+}
+
+// coScale rewrites every maximal integer constant expression equal to orig (skipping the declaration of blockSize
+// itself, which scaleConst handles) and returns the new source and the number of rewrites.
+func coScale(file string, src []byte, orig int64, lit string, isBlockFile bool) ([]byte, int, error) {
+	fset := token.NewFileSet()
+	var f *ast.File
+	var err error
+	if src != nil {
+		f, err = parser.ParseFile(fset, file, src, parser.ParseComments)
+	} else {
+		f, err = parser.ParseFile(fset, file, nil, parser.ParseComments)
+	}
+	if err != nil {
+		return nil, 0, err
+	}
+	n := 0
+	repl := func(e ast.Expr) ast.Expr {
+		if v, ok := evalConstExpr(e); ok && v == orig {
+			n++
+			return &ast.BasicLit{Kind: token.INT, Value: lit}
+		}
+		return nil
+	}
+	ast.Inspect(f, func(nd ast.Node) bool {
+		switch x := nd.(type) {
+		case *ast.ValueSpec:
+			for i := range x.Values {
+				if isBlockFile && i < len(x.Names) && x.Names[i].Name == "blockSize" {
+					continue
+				}
+				if r := repl(x.Values[i]); r != nil {
+					x.Values[i] = r
+				}
+			}
+		case *ast.BinaryExpr:
+			if r := repl(x.X); r != nil {
+				x.X = r
+			}
+			if r := repl(x.Y); r != nil {
+				x.Y = r
+			}
+		case *ast.CallExpr:
+			for i := range x.Args {
+				if r := repl(x.Args[i]); r != nil {
+					x.Args[i] = r
+				}
+			}
+		case *ast.AssignStmt:
+			for i := range x.Rhs {
+				if r := repl(x.Rhs[i]); r != nil {
+					x.Rhs[i] = r
+				}
+			}
+		case *ast.ReturnStmt:
+			for i := range x.Results {
+				if r := repl(x.Results[i]); r != nil {
+					x.Results[i] = r
+				}
+			}
+		case *ast.IndexExpr:
+			if r := repl(x.Index); r != nil {
+				x.Index = r
+			}
+		case *ast.SliceExpr:
+			if x.Low != nil {
+				if r := repl(x.Low); r != nil {
+					x.Low = r
+				}
+			}
+			if x.High != nil {
+				if r := repl(x.High); r != nil {
+					x.High = r
+				}
+			}
+		}
+		return true
+	})
+	if n == 0 {
+		return nil, 0, nil
+	}
+	var buf bytes.Buffer
+	if err := printer.Fprint(&buf, fset, f); err != nil {
+		return nil, 0, err
+	}
+	return buf.Bytes(), n, nil
 }
